@@ -107,6 +107,7 @@ def stepLine (d : DS) (line : String) : DS × String :=
     let d1 := stepD d (.lookupdDrop i)
     let d2 := if n == "R" then { d1 with rKnown := [] } else d1
     (probe d2, "ok")
+  | "hook" :: _ => (d, "ok")
   | ["drop", n] => (stepD d (.lookupdDrop (peerIdx d n)), "ok")
   | ["settle"] => let d1 := ticks d; (d1, viewLine d1)
   | ["read", limit, hex] =>
